@@ -72,42 +72,43 @@ type steerSpec struct {
 }
 
 type prodScenario struct {
-	Brokers, Parts   int
-	Topics           []string
-	BaseOffset       int64
-	Version          sarama.KafkaVersion
-	RetryMax         int
-	Idempotent       bool
-	Acks             sarama.RequiredAcks
-	FlushMessages    int
-	FlushBytes       int
-	FlushMaxMessages int
-	FlushFreq        time.Duration
-	Codec            sarama.CompressionCodec
-	CodecLevel       int
-	MaxMessageBytes  int
-	MaxRequestSize   int32
-	Partitioner      string
-	Msgs             []*msgSpec
-	Submitters       int
-	Faults           []int
-	FaultCodes       []sarama.KError
-	NoLeaderFor      int // fNoLeader: metadata requests the partition stays leaderless for (0 = 4 + i%5)
-	MetaFail         int
-	Leaderless       map[string]bool // "topic/part" without leader at start
-	Steer            []steerSpec
-	Interceptors     []icSpec
-	Sync             bool
-	SyncBatch        int
-	CloseMode        string // close | asyncclose
-	ReadTimeout      time.Duration
-	ChannelBuf       int
-	Sequential       int  // > 0: submit in groups of this size and wait for the group's outcomes before the next (no fresh input inside retry windows)
-	SkipClose        bool // do not close the producer (settings under which Close is known to block: judged by C01/C12, not here)
-	ExpectAtCluster  int  // StopInputEarly: number of records that must reach the cluster without further input
-	ProduceDelayMs   int  // the cluster takes this long to answer a produce request (batches accumulate, flush timers expire meanwhile)
-	StopInputEarly   bool // C16 flush clause: do not close, wait for the request to appear
-	BadPartitioner   string
+	Brokers, Parts       int
+	Topics               []string
+	BaseOffset           int64
+	Version              sarama.KafkaVersion
+	RetryMax             int
+	Idempotent           bool
+	Acks                 sarama.RequiredAcks
+	FlushMessages        int
+	FlushBytes           int
+	FlushMaxMessages     int
+	FlushFreq            time.Duration
+	Codec                sarama.CompressionCodec
+	CodecLevel           int
+	MaxMessageBytes      int
+	MaxRequestSize       int32
+	Partitioner          string
+	Msgs                 []*msgSpec
+	Submitters           int
+	Faults               []int
+	FaultCodes           []sarama.KError
+	NoLeaderFor          int // fNoLeader: metadata requests the partition stays leaderless for (0 = 4 + i%5)
+	MetaFail             int
+	MetaFailAfterRefusal int             // this many metadata requests after the first refused produce batch die with their connection
+	Leaderless           map[string]bool // "topic/part" without leader at start
+	Steer                []steerSpec
+	Interceptors         []icSpec
+	Sync                 bool
+	SyncBatch            int
+	CloseMode            string // close | asyncclose
+	ReadTimeout          time.Duration
+	ChannelBuf           int
+	Sequential           int  // > 0: submit in groups of this size and wait for the group's outcomes before the next (no fresh input inside retry windows)
+	SkipClose            bool // do not close the producer (settings under which Close is known to block: judged by C01/C12, not here)
+	ExpectAtCluster      int  // StopInputEarly: number of records that must reach the cluster without further input
+	ProduceDelayMs       int  // the cluster takes this long to answer a produce request (batches accumulate, flush timers expire meanwhile)
+	StopInputEarly       bool // C16 flush clause: do not close, wait for the request to appear
+	BadPartitioner       string
 }
 
 func (sc *prodScenario) describe() map[string]interface{} {
@@ -297,6 +298,7 @@ func runProd(sc *prodScenario, rng *rand.Rand) *prodResult {
 	}
 	var plMu sync.Mutex
 	var pendingLeaders []pendingLeader
+	var refusedOnce, metaFailLeft int32
 	sim.OnMetadata = func(ctx *sarama.VSimReqCtx) sarama.VSimConnAction {
 		plMu.Lock()
 		n := atomic.LoadInt32(&metaN) + 1
@@ -311,6 +313,9 @@ func runProd(sc *prodScenario, rng *rand.Rand) *prodResult {
 		pendingLeaders = keep
 		plMu.Unlock()
 		if int(atomic.AddInt32(&metaN, 1)) > 1 && int(atomic.LoadInt32(&metaN)) <= 1+sc.MetaFail {
+			return sarama.VSimConnAction{Kind: sarama.VConnDropBefore}
+		}
+		if atomic.LoadInt32(&refusedOnce) == 1 && atomic.AddInt32(&metaFailLeft, -1) >= 0 {
 			return sarama.VSimConnAction{Kind: sarama.VConnDropBefore}
 		}
 		return sarama.VSimConnAction{}
@@ -329,6 +334,9 @@ func runProd(sc *prodScenario, rng *rand.Rand) *prodResult {
 		}
 		switch sc.Faults[i] {
 		case fRetryNoAppend:
+			if sc.MetaFailAfterRefusal > 0 && atomic.CompareAndSwapInt32(&refusedOnce, 0, 1) {
+				atomic.StoreInt32(&metaFailLeft, int32(sc.MetaFailAfterRefusal))
+			}
 			return sarama.VSimProduceAction{Kind: sarama.VPErrNoAppend, Code: code}
 		case fRetryAfterAppend:
 			return sarama.VSimProduceAction{Kind: sarama.VPErrAfterAppend, Code: code}
